@@ -151,7 +151,7 @@ def encode(roots, *, magic='generic', has_idx=False, has_crc=False, has_cache_bi
         b = cell_body(c, index_of, size, wh)
         if ref_override:
             for (ci, slot), val in ref_override.items():
-                if ci == i:
+                if ci == i and ci != 'root':
                     nref = len(c.refs)
                     pos = len(b) - (nref - slot) * size
                     b = b[:pos] + (val % (1 << (8 * size))).to_bytes(size, 'big') + b[pos + size:]
@@ -171,8 +171,11 @@ def encode(roots, *, magic='generic', has_idx=False, has_crc=False, has_cache_bi
         out = bytearray(MAGIC_GENERIC) + bytes([flags, off_bytes])
         out += n.to_bytes(size, 'big') + len(roots).to_bytes(size, 'big') + (0).to_bytes(size, 'big')
         out += tot.to_bytes(off_bytes, 'big')
-        for r in roots:
-            out += index_of[r.hash].to_bytes(size, 'big')
+        for k, r in enumerate(roots):
+            v = index_of[r.hash]
+            if ref_override and ('root', k) in ref_override:
+                v = ref_override[('root', k)] % (1 << (8 * size))   # Byzantine encoder: dangling root index
+            out += v.to_bytes(size, 'big')
     else:
         if len(roots) != 1 or index_of[roots[0].hash] != 0:
             raise BocFormatError('legacy forms have exactly one root, cell 0')
